@@ -32,7 +32,7 @@ from math import lcm
 from pathlib import Path
 
 from harness import sweep
-from vlib.core import BUILD, PY, VERIF, impl_env
+from vlib.core import BUILD, GUARD, PY, VERIF, impl_env
 
 WORKER = str(VERIF / "tools" / "harness" / "c01g_worker.py")
 CORPUS = VERIF / "corpus" / "C01G"
@@ -135,7 +135,10 @@ def _eval_shard(work: Path, shard_id: int, cases: list[dict], per_case_timeout: 
         inp.write_text(json.dumps({"cases": todo, "per_case_timeout": per_case_timeout}))
         budget = 120 + per_case_timeout * 2 + len(todo) * 3
         try:
-            p = subprocess.run([PY, "-B", WORKER, "run", str(inp), str(outp), str(prog)], env=impl_env(),
+            # every other shard runs its kernels with initial capacity 1 (hook): what is stored does not depend on
+            # the capacity (G knows nothing about it), so the comparison is the same and the growth paths execute
+            p = subprocess.run([PY, "-B", WORKER, "run", str(inp), str(outp), str(prog)],
+                               env=impl_env({GUARD: "1"} if shard_id % 2 == 1 else None),
                                cwd=str(VERIF), capture_output=True, text=True, timeout=budget)
             rc, err = p.returncode, p.stderr
         except subprocess.TimeoutExpired as e:
